@@ -65,8 +65,22 @@ theorem invalid_removes (s : St) (key : String) (t : Typ) (ver : Nat) (e : Entry
     (he : s.store.get? key = some e) (hp : e.hasPath = true) :
     (step s (.add key t ver false)).1.dir.get? (fileName key) = none ∧
     (step s (.add key t ver false)).1.store.get? key = some ⟨t, ver, false, false⟩ := by
-  simp only [step, he, hp, if_true, Bool.not_false]
-  exact ⟨by unfold deleteFiles; rw [Map.get?_erase]; simp, Map.get?_set_self _ _ _⟩
+  by_cases ht : e.typ = t
+  · simp only [step, he, hp, ht, ne_eq, not_true_eq_false, decide_false, Bool.and_false, Bool.false_eq_true, if_false,
+      Bool.not_false, Bool.and_true, if_true]
+    exact ⟨by unfold deleteFiles; rw [Map.get?_erase]; simp, Map.get?_set_self _ _ _⟩
+  · have ht' : ¬ t = e.typ := fun h => ht h.symm
+    simp [step, he, hp, ht, ht', deleteFiles, Map.get?_erase, Map.get?_set_self]
+
+/-- **A re-created Secret of another type takes the old type's file with it** (fix of S-C11-c): when the stored Secret is
+materialised and an object of another type arrives under the same key — the type of a Secret is immutable, so it is a new object
+whose deletion the store never saw — `<ns>-<name>` is removed and the path cleared; the new material is written by the next lookup. -/
+theorem retype_removes (s : St) (key : String) (t : Typ) (ver : Nat) (valid : Bool) (e : Entry)
+    (he : s.store.get? key = some e) (hp : e.hasPath = true) (ht : e.typ ≠ t) :
+    (step s (.add key t ver valid)).1.dir.get? (fileName key) = none ∧
+    (step s (.add key t ver valid)).1.store.get? key = some ⟨t, ver, valid, false⟩ := by
+  have ht' : ¬ t = e.typ := fun h => ht h.symm
+  simp [step, he, hp, ht, ht', deleteFiles, Map.get?_erase, Map.get?_set_self]
 
 /-- **Deletion removes the file** (single-file types) and the store entry. -/
 theorem delete_removes (s : St) (key : String) (e : Entry) (he : s.store.get? key = some e) (hp : e.hasPath = true) :
